@@ -113,8 +113,23 @@ def boundary_family(tier):
     return out
 
 
+def full_family(seed):
+    """maximal cells: data of 1015..1023 bits (every residue of the last byte) x 0..4 references, as the root, as an
+    inner cell and as a leaf - the largest serialised cell is 2 + 128 + 4*size bytes"""
+    out = []
+    for L in (1015, 1016, 1017, 1022, 1023):
+        for nrefs in range(5):
+            def mk(L=L, nrefs=nrefs):
+                kids = tuple(RC.RCell(format(i, '03b')) for i in range(nrefs))
+                full = RC.RCell(filler_bits(seed, f'full-{L}-{nrefs}', L - 1) + '1', kids)
+                return RC.RCell('1', (full, RC.RCell('0' * L, kids[:1])))
+            out.append((f'full:{L}:{nrefs}', mk))
+            out.append((f'fullroot:{L}:{nrefs}', (lambda mk=mk: mk().refs[0])))
+    return out
+
+
 def family(tier, seed):
-    fam = shape_family(3 if tier == 'quick' else 4) + content_family(seed) + exotic_family() + boundary_family(tier)
+    fam = shape_family(3 if tier == 'quick' else 4) + content_family(seed) + full_family(seed) + exotic_family() + boundary_family(tier)
     return fam
 
 
